@@ -216,6 +216,9 @@ func cmdShow(args []string) int {
 		}
 	}
 	if events {
+		for o, v := range st.mem {
+			fmt.Printf("  mem o%d(%s) = %s\n", o.id, o.name, shortKey(valKey(v), 300))
+		}
 		for _, e := range ev.Events {
 			var as []string
 			for _, a := range e.Args {
